@@ -495,6 +495,11 @@ pub fn non_conforming(name: &str, v: &RefValue, defs: &Defs) -> Vec<(String, Ref
                     out.push((format!("variant-{id}-wrongly-typed"), V::Enum(*id, Box::new(w))));
                 }
             }
+            // a variant without a type carries nothing: any payload is wrongly typed
+            for var in variants.iter().filter(|v| v.ty.is_none()) {
+                out.push((format!("unit-variant-{}-with-payload", var.id), V::Enum(var.id, Box::new(V::U8(7)))));
+                out.push((format!("unit-variant-{}-with-struct-payload", var.id), V::Enum(var.id, Box::new(V::Struct(vec![(1, V::U8(1))])))));
+            }
             out.push(("enum-as-struct".into(), V::Struct(vec![])));
             out.push(("enum-as-u8".into(), V::U8(1)));
         }
